@@ -35,8 +35,8 @@ ENCODED = ["twisted.web.http:_parseRequestLine", "twisted.web._abnf:_istoken", "
            "twisted.web.http:HTTPChannel._respondToBadRequestAndDisconnect",
            "twisted.web.http:_IdentityTransferDecoder", "twisted.web.http:_ChunkedTransferDecoder",
            "twisted.protocols.basic:LineReceiver.dataReceived"]
-BOUNDS = {"quick": {"m": 2, "tg": 2, "vs": 2, "nm": 3, "di": 3, "bd": 2},
-          "thorough": {"m": 3, "tg": 3, "vs": 3, "nm": 4, "di": 4, "bd": 2}}
+BOUNDS = {"quick": {"m": 4, "tg": 4, "vs": 4, "nm": 2, "di": 3, "bd": 2},
+          "thorough": {"m": 6, "tg": 5, "vs": 5, "nm": 3, "di": 4, "bd": 2}}
 B = {}
 BOUNDS_TEXT = ("kernels: method <= m, target <= tg symbolic bytes, both separators symbolic, version = "
                "'HTTP/' + <= vs symbolic bytes (or one of three concrete spellings); header names <= nm bytes; "
@@ -312,7 +312,7 @@ def _agree(stream):
         flat = []
         for k, vs in g[3]:
             for v in vs:
-                flat.append((ascii_lower(k), v))
+                flat.append((ascii_lower(k), ows_strip(v)))     # modulo OWS (a replaced leading CR stays as SP)
         es = list(e[3])
         if len(flat) != len(es):
             return False
@@ -324,22 +324,7 @@ def _agree(stream):
 
 # ---- kernels ----------------------------------------------------------------------------------------
 
-_VERSIONS = ["HTTP/1.1", "HTTP/1.0", "HTTP/2.0", "http/1.1"]
-
-
-def k_reqline(m: str, s1: str, tg: str, s2: str, vk: int, vs: str) -> bool:
-    """
-    pre: len(m) <= B['m'] and len(tg) <= B['tg'] and len(s1) == 1 and len(s2) == 1 and len(vs) <= B['vs']
-    pre: all_latin1(m + s1 + tg + s2 + vs)
-    pre: 0 <= vk <= 4
-    post: _
-    """
-    m = fix(m, conc_len(m, 3))
-    tg = fix(tg, conc_len(tg, 3))
-    vs = fix(vs, conc_len(vs, 3))
-    k = split_cases(4, vk)
-    ver = ("HTTP/" + vs) if k == 4 else _VERSIONS[k]
-    line = m + fix(s1, 1) + tg + fix(s2, 1) + ver
+def _reqline_ok(line):
     try:
         got = L._parseRequestLine(b(line))
         got = (t(got[0]), t(got[1]), t(got[2]))
@@ -351,6 +336,40 @@ def k_reqline(m: str, s1: str, tg: str, s2: str, vk: int, vs: str) -> bool:
     if exp is None:
         return got is None
     return got is not None and got[0] == exp[0] and got[1] == exp[1] and got[2] == exp[2]
+
+
+def k_method(m: str) -> bool:
+    """
+    pre: len(m) <= B['m'] and all_latin1(m)
+    post: _
+    """
+    return _reqline_ok(fix(m, conc_len(m, 6)) + " /x HTTP/1.1")
+
+
+def k_target(tg: str) -> bool:
+    """
+    pre: len(tg) <= B['tg'] and all_latin1(tg)
+    post: _
+    """
+    return _reqline_ok("GET " + fix(tg, conc_len(tg, 6)) + " HTTP/1.0")
+
+
+def k_version(pre5: bool, vs: str) -> bool:
+    """
+    pre: len(vs) <= B['vs'] and all_latin1(vs)
+    post: _
+    """
+    return _reqline_ok("GET /x " + ("HTTP/" if pre5 else "") + fix(vs, conc_len(vs, 6)))
+
+
+def k_line5(a: str, s1: str, c: str, s2: str, e: str) -> bool:
+    """
+    pre: len(a) == 1 and len(s1) == 1 and len(c) == 1 and len(s2) == 1 and len(e) == 1
+    pre: all_latin1(a + s1 + c + s2 + e)
+    post: _
+    """
+    # one symbolic byte in the method, each separator, the target and the version at the same time
+    return _reqline_ok("G" + fix(a, 1) + fix(s1, 1) + "/" + fix(c, 1) + fix(s2, 1) + "HTTP/1." + fix(e, 1))
 
 
 def k_name(nm: str) -> bool:
@@ -462,7 +481,9 @@ def framing(combo: int, cl: str, x: str, bd: str) -> bool:
     post: _
     """
     cl = _digit_cases(fix(cl, 2), _DIGITS)
-    x = _digit_cases(fix(x, 1), _DIGITS)
+    x = fix(x, 1)
+    if combo == 3:
+        x = _digit_cases(x, _DIGITS)
     bd = fix(bd, conc_len(bd, 3))
     head, chunked = framing_stream(combo, cl, x, bd)
     if chunked:
@@ -484,9 +505,13 @@ def names_channel(nm: str, vc: str) -> bool:
 
 
 HARNESSES = [
-    H(k_reqline, shards=lambda tier: [("len(m) == %d" % a, "len(tg) == %d" % c)
-                                      for a in range(BOUNDS[tier]["m"] + 1) for c in range(BOUNDS[tier]["tg"] + 1)],
-      timeout={"quick": 100, "thorough": 1500}),
+    H(k_method, shards=lambda tier: [("len(m) == %d" % a,) for a in range(BOUNDS[tier]["m"] + 1)],
+      timeout={"quick": 60, "thorough": 900}),
+    H(k_target, shards=lambda tier: [("len(tg) == %d" % a,) for a in range(BOUNDS[tier]["tg"] + 1)],
+      timeout={"quick": 60, "thorough": 900}),
+    H(k_version, shards=lambda tier: [("len(vs) == %d" % a,) for a in range(BOUNDS[tier]["vs"] + 1)],
+      timeout={"quick": 60, "thorough": 900}),
+    H(k_line5, timeout={"quick": 100, "thorough": 900}),
     H(k_name, shards=lambda tier: [("len(nm) == %d" % a,) for a in range(BOUNDS[tier]["nm"] + 1)],
       timeout={"quick": 60, "thorough": 900}),
     H(k_decint, shards=lambda tier: [("len(s) == %d" % a,) for a in range(BOUNDS[tier]["di"] + 1)],
@@ -496,10 +521,12 @@ HARNESSES = [
 ]
 
 VECTORS = {
-    "k_reqline": [("GET", " ", "/", " ", 0, ""), ("GET", " ", "/\x7f", " ", 0, ""), ("G T", " ", "/", " ", 1, ""),
-                  ("GET", "\t", "/", " ", 0, ""), ("", " ", "/", " ", 0, ""), ("GET", " ", "", " ", 0, ""),
-                  ("GET", " ", "/", " ", 2, ""), ("get", " ", "*", " ", 4, "1.1"), ("GET", " ", "/a", " ", 4, "1.2"),
-                  ("G(T", " ", "/", " ", 0, ""), ("GET", " ", "/\xb0\x80", " ", 0, ""), ("GET", " ", "/\xff", " ", 1, "")],
+    "k_method": [("GET",), ("G T",), ("",), ("G(T",), ("get",), ("\xe9",), ("a\x00",), ("!#~",), ("A\t",)],
+    "k_target": [("/",), ("/\x7f",), ("",), ("*",), ("/\xb0\x80",), ("/\xff",), ("/ a",), ("/\x00",), ("/~!",), ("\x80",)],
+    "k_version": [(True, "1.1"), (True, "1.0"), (True, "2.0"), (True, "1.1 "), (False, "HTT"), (True, ""), (True, "1.\x31"),
+                  (False, ""), (True, "1,1")],
+    "k_line5": [("E", " ", "a", " ", "1"), ("E", "\t", "a", " ", "1"), ("E", " ", "\x7f", " ", "1"), (" ", " ", "a", " ", "0"),
+                ("E", " ", " ", " ", "1"), ("E", " ", "a", "\r", "1"), ("E", " ", "a", " ", "2"), ("(", " ", "a", " ", "1")],
     "k_name": [("Host",), ("a b",), ("",), ("x:",), ("etag",), ("\xe9",), ("a-b",), ("te",), ("A\x00",)],
     "k_decint": [("12",), (" 7\t",), ("+1",), ("-1",), ("",), (" ",), ("1_0",), ("0x1",), ("1 2",), ("\n1",), ("007",)],
     "framing": [(0, "00", "d", "ab"), (1, "21", "d", "ab"), (1, "02", "d", "ab"), (1, "2 ", "d", "ab"),
